@@ -167,6 +167,7 @@ func runServe(c ServeCase) core.Result {
 		received int64
 		closed   bool
 		lab      map[string]bool
+		settled  bool
 	}
 	outs := make(chan out, len(c.Leechers))
 	for li, ops := range c.Leechers {
@@ -258,8 +259,11 @@ func runServe(c ServeCase) core.Result {
 				}
 			}
 			// quiesce: barrier (if still connected), then a short wait for stragglers
+			settled := true
 			if !p.Closed() {
-				p.Barrier(3 * time.Second)
+				// everything the client queued before the barrier's answer has arrived once the answer is here; a barrier
+				// that times out (loaded machine, slow disk double) leaves the log incomplete
+				_, settled = p.Barrier(15 * time.Second)
 			}
 			time.Sleep(30 * time.Millisecond)
 			// ---- judge the log in stream order ----
@@ -323,7 +327,7 @@ func runServe(c ServeCase) core.Result {
 					mylab["served"] = true
 				}
 			}
-			outs <- out{received, p.Closed(), mylab}
+			outs <- out{received, p.Closed(), mylab, settled}
 			errs <- ""
 		}(li, ops)
 	}
@@ -333,7 +337,7 @@ func runServe(c ServeCase) core.Result {
 		}
 		o := <-outs
 		totalReceived += o.received
-		anyClosed = anyClosed || o.closed
+		anyClosed = anyClosed || o.closed || !o.settled // an unsettled log is as good as a dropped leecher for the counter
 		for k := range o.lab {
 			lab[k] = true
 		}
